@@ -106,7 +106,7 @@ theorem readArray_struct (fuel : Nat) (st : St) (m : Member) (len : Nat) (b : By
       match readBitField t.all.length b with
       | none => none
       | some (ex, b) =>
-        match readColumns fuel st t.all ex 0 len b with
+        match readColumnsWith (readArray fuel) st t.all ex 0 len b with
         | none => none
         | some (cols, st, b) => some ((List.range len).map (fun i => Value.obj t (rowOf cols i)), st, b) := by
   simp [readArray, h, hc, ht, memberCount]
@@ -145,7 +145,7 @@ theorem readRoot (p : Enc) (fuel : Nat) (st : St) (hst : st.types = stdHTypes) (
   rw [show hNamedVariant.all.length = 3 from rfl, bf [true, true, true] 3 _ rfl (by decide)]
   rw [show hNamedVariant.all = [⟨n_name, 10, 0, none⟩, ⟨n_className, 10, 0, none⟩,
     ⟨n_variant, 8, 0, some n_hkReferencedObject⟩] from rfl]
-  simp only [readColumns, if_true, show Havok.isTuple 10 = false from rfl, show Havok.isTuple 8 = false from rfl,
+  simp only [readColumnsWith, if_true, show Havok.isTuple 10 = false from rfl, show Havok.isTuple 8 = false from rfl,
     Bool.false_eq_true, if_false]
   rw [readArray_str _ _ _ _ _ rfl, hs1 _ (by simpa using hvn)]
   simp only []
@@ -228,7 +228,7 @@ theorem readSkeleton (p : Enc) (fuel : Nat) (st : St) (hst : st.types = stdHType
     (std_find { st with strings := (encString p st.strings name).2 } hst _ _ rfl)]
   rw [show hBone.all.length = 2 from rfl, bf [true, true] 2 _ rfl (by decide)]
   rw [show hBone.all = [⟨n_name, 10, 0, none⟩, ⟨n_lockTranslation, 1, 0, none⟩] from rfl]
-  simp only [readColumns, if_true, show Havok.isTuple 10 = false from rfl, show Havok.isTuple 1 = false from rfl,
+  simp only [readColumnsWith, if_true, show Havok.isTuple 10 = false from rfl, show Havok.isTuple 1 = false from rfl,
     Bool.false_eq_true, if_false]
   rw [readArray_str _ _ _ _ _ rfl, hs _ hnok]
   simp only []
